@@ -32,7 +32,7 @@ class SpecAnalysis(af.Analysis):
                 obj = getattr(obj, name)
             if self.reject[1] <= obj < self.reject[2]:
                 if self.reject_mode == "nan":
-                    return float("nan")
+                    return np.array(float("nan")) if self.ret == "np0d" else np.float64("nan") if self.ret == "np64" else float("nan")
                 raise af.exc.FitException("rejected region")
         if self.slow is not None:
             obj = instance
